@@ -1,7 +1,156 @@
 import ComposeVerif.Ops.Common
-/-! line-protocol ops for C16 (filled in by the property's owner) -/
+import ComposeVerif.Model.EnvLayers
+import ComposeVerif.Spec.EnvLayers
+/-! line-protocol ops for C16: `c16.env`, `c16.labels`, `c16.load` (model) and `c16.spec` (specification) -/
+open Lean
 namespace CV.Ops.C16
+open CV.EnvLayers
 
-def handlers : List (String × Handler) := []
+def arr (j : Json) (k : String) : List Json :=
+  match j.getObjVal? k with
+  | .ok (.arr a) => a.toList
+  | _ => []       -- Go encodes a nil slice as null
+
+def optStr (j : Json) : Option Str :=
+  match j with
+  | .str s => some s.toList
+  | _ => none
+
+/-- `[["k","v"],["k2",null]]` -/
+def pairsOpt (j : Json) (k : String) : List (Key × Option Str) :=
+  (arr j k).filterMap fun p => match p with
+    | .arr #[.str a, v] => some (a.toList, optStr v)
+    | _ => none
+
+def pairs (j : Json) (k : String) : List (Key × Str) :=
+  (pairsOpt j k).filterMap fun p => match p.2 with
+    | some v => some (p.1, v)
+    | none => none
+
+def segOfJson (j : Json) : Seg :=
+  match j.getObjVal? "ref" with
+  | .ok (.str s) => .ref s.toList
+  | _ => .lit (getStr j "lit").toList
+
+def lineOfJson (j : Json) : Line :=
+  match j.getObjVal? "bare" with
+  | .ok (.str s) => .bare s.toList
+  | _ => match j.getObjVal? "k" with
+    | .ok (.str k) => .assign k.toList ((arr j "v").map segOfJson)
+    | _ => .bad
+
+def linesOf (j : Json) (k : String) : List Line := (arr j k).map lineOfJson
+
+def nodeOfJson (j : Json) : Node :=
+  if getBool j "notdir" then .notdir else if getBool j "dir" then .dir else .file (linesOf j "lines")
+
+/-- `"files": {"path": node, …}` -/
+def fsOf (j : Json) : FS :=
+  let l : List (Str × Node) := match j.getObjVal? "files" with
+    | .ok (.obj o) => o.toList.map fun (k, v) => (k.toList, nodeOfJson v)
+    | _ => []
+  fun p => lookup p l
+
+def envFileOfJson (j : Json) : EnvFile :=
+  { path := (getStr j "path").toList, required := getBool j "required", format := (getStr j "format").toList }
+
+def itemOfJson (j : Json) : Item :=
+  match j.getObjVal? "v" with
+  | .ok (.str v) => .kv (getStr j "k").toList v.toList
+  | _ => .bare (getStr j "k").toList
+
+def yenvOf (j : Json) : YEnv :=
+  match j.getObjVal? "yenv" with
+  | .ok y =>
+    match y.getObjVal? "list", y.getObjVal? "map" with
+    | .ok (.arr a), _ => .list (a.toList.map itemOfJson)
+    | _, .ok (.arr _) => .map (pairsOpt y "map")
+    | _, _ => .absent
+  | _ => .absent
+
+def serviceOfJson (j : Json) : Str × Service :=
+  ((getStr j "name").toList,
+   { environment := pairsOpt j "environment"
+     envFiles := (arr j "env_files").map envFileOfJson
+     labels := pairs j "labels"
+     labelFiles := (getStrList j "label_files").map String.toList })
+
+def errStr : Err → String
+  | .notFound => "notFound" | .format => "format" | .parse => "parse" | .read => "read"
+
+def mweJson (m : List (Key × Option Str)) : Json :=
+  Json.mkObj (m.map fun kv => (String.ofList kv.1, match kv.2 with | some v => str v | none => Json.null))
+
+def mapJson (m : List (Key × Str)) : Json :=
+  Json.mkObj (m.map fun kv => (String.ofList kv.1, str kv.2))
+
+def envFileJson (f : EnvFile) : Json :=
+  Json.mkObj [("path", str f.path), ("required", Json.bool f.required), ("format", str f.format)]
+
+def serviceJson (s : Service) : Json :=
+  Json.mkObj [("environment", mweJson s.environment), ("env_files", Json.arr (s.envFiles.map envFileJson).toArray),
+              ("labels", mapJson s.labels), ("label_files", Json.arr (s.labelFiles.map str).toArray)]
+
+def outJson : Except (List Err) (List (Str × Service)) → Json
+  | .ok svcs => Json.mkObj [("ok", Json.mkObj (svcs.map fun p => (String.ofList p.1, serviceJson p.2)))]
+  | .error es => Json.mkObj [("errs", Json.arr (es.map fun e => Json.str (errStr e)).toArray)]
+
+def penvOf (args : Json) : List (Key × Str) := (getStrMap args "penv").map fun p => (p.1.toList, p.2.toList)
+
+/-- model of `Project.WithServicesEnvironmentResolved(discard)` -/
+def envOp : Handler := fun args =>
+  outJson (resolveProjectEnv (penvOf args) (fsOf args) (getBool args "discard") ((arr args "services").map serviceOfJson))
+
+/-- model of `Project.WithServicesLabelsResolved(discard)` -/
+def labelsOp : Handler := fun args =>
+  outJson (resolveProjectLabels (fsOf args) (getBool args "discard") ((arr args "services").map serviceOfJson))
+
+/-- both Project methods on the same arguments -/
+def resolveOp : Handler := fun args =>
+  Json.mkObj [("env", envOp args), ("labels", labelsOp args)]
+
+/-- model of the environment / label part of a whole load -/
+def loadOp : Handler := fun args =>
+  let penv := penvOf args
+  let fs := fsOf args
+  let cfg : LoadCfg := { skipNormalization := getBool args "skip_normalization",
+                         skipResolveEnvironment := getBool args "skip_resolve_environment",
+                         discard := getBool args "discard" }
+  outJson (loadProject cfg penv fs ((arr args "services").map fun j => ((serviceOfJson j).1, yenvOf j, (serviceOfJson j).2)))
+
+/-! ### specification op (direct oracle) -/
+open CV.EnvLayers.Spec
+
+def fileLayerOfJson (j : Json) : FileLayer :=
+  { lines := linesOf j "lines", present := getBool j "present", required := getBool j "required" }
+
+def optOptJson : Option (Option Str) → Json
+  | none => Json.mkObj [("absent", Json.bool true)]
+  | some none => Json.null
+  | some (some v) => str v
+
+/-- what the property says about a layer assignment: per key of `keys`, the final environment and label -/
+def specOp : Handler := fun args =>
+  let penv := penvOf args
+  let efl := (arr args "env_layers").map fileLayerOfJson
+  let lfl := (arr args "label_layers").map fileLayerOfJson
+  let env := pairsOpt args "environment"
+  let labels := pairs args "labels"
+  let keys := (getStrList args "keys").map String.toList
+  if missingRequired efl then Json.mkObj [("err", "notFound")]
+  else if lfl.any (fun f => !f.present) then Json.mkObj [("err", "notFound")]
+  else
+    let files := presentFiles efl
+    let lfiles := presentFiles lfl
+    Json.mkObj [
+      ("environment", Json.mkObj (keys.filterMap fun k => match finalEnv penv files env k with
+        | none => none
+        | some v => some (String.ofList k, match v with | some x => str x | none => Json.null))),
+      ("labels", Json.mkObj (keys.filterMap fun k => match finalLabel lfiles labels k with
+        | none => none
+        | some v => some (String.ofList k, str v)))]
+
+def handlers : List (String × Handler) :=
+  [("c16.env", envOp), ("c16.labels", labelsOp), ("c16.resolve", resolveOp), ("c16.load", loadOp), ("c16.spec", specOp)]
 
 end CV.Ops.C16
